@@ -116,14 +116,30 @@ func (ex *Exec) VerifyFunction(fn *ssa.Function, c *Contract) {
 		}
 		st.assume(t)
 	}
+	// `defines p(args) := e` unfolds a spec predicate for exactly these arguments (its definition, not an assumption
+	// about the code)
+	for _, cl := range c.byKind("defines") {
+		t, err := ctx0.EvalBool(cl.E)
+		if err != nil {
+			ex.oblige(st, "binding", c.Key+"#binding", allProps(c), TFalse, "defines: "+err.Error())
+			return
+		}
+		st.assume(t)
+		for _, s := range ctx0.side {
+			st.assume(s)
+		}
+		ctx0.side = nil
+	}
 	pre = st.clone()
 	ex.topPre = pre
 	ex.topVars = vars
 	nret := 0
+	ex.keepTopFrame = true
 	ex.runFunc(st, fn, args, func(post *State, res []Value) {
 		nret++
 		ex.atReturn(fn, c, pre, post, vars, res)
 	})
+	ex.keepTopFrame = false
 	ex.oblige(st, "vacuity", c.Key+"#reachable-return", allProps(c), Bool(nret > 0), "no return path explored")
 }
 
